@@ -1,0 +1,62 @@
+//go:build verif
+
+// Contracts for govc (contract-based deductive verification, see /verif/DESIGN.md).
+// This file contains comments only; it is compiled only with the build tag
+// `verif` and adds no code to the package.
+
+package magic
+
+//@ spec isWSB(c) = c == '\t' || c == '\n' || c == 12 || c == '\r' || c == ' '
+
+//@ func magic.trimLWS
+//@   ensures isSuffixView(result, in)
+//@   loop 1 invariant 0 <= firstNonWS && firstNonWS <= len(in)
+//@   loop 1 decreases len(in) - firstNonWS
+
+//@ func magic.trimRWS
+//@   ensures isPrefixView(result, in)
+//@   loop 1 invariant -1 <= lastNonWS && lastNonWS < len(in) || len(in) == 0 && lastNonWS == -1
+//@   loop 1 decreases lastNonWS
+
+//@ func magic.firstLine
+//@   ensures isPrefixView(result, in)
+//@   loop 1 invariant 0 <= lineEnd && lineEnd <= len(in)
+//@   loop 1 decreases len(in) - lineEnd
+
+//@ func magic.dropLastLine
+//@   ensures isPrefixView(result, b)
+//@   loop 1 invariant -1 <= i && i < len(b) || len(b) == 0 && i == -1
+//@   loop 1 decreases i
+
+//@ func magic.vintWidth
+//@   ensures 1 <= result && result <= 8
+//@   loop 1 invariant 1 <= num && num <= 8 && max == 8 && 0 <= mask && mask <= 128
+//@   loop 1 decreases 8 - num
+
+//@ func magic.Marc
+//@   loop 1 unroll
+
+//@ func magic.zipContains
+//@   loop 2 unroll
+
+//@ func magic.offset$1
+//@   requires offset >= 0
+
+//@ func magic.NdJSON
+//@   loop 1 invariant 0 <= objOrArr && objOrArr <= lCount && 0 <= lCount && lCount + len(raw) <= len(old(raw))
+//@   loop 1 decreases len(raw)
+
+//@ func magic.sv
+//@   loop 1 assume 0 <= lines && lines <= 4611686018427387904
+//@   loop 1 terminates encoding/csv.Reader returns io.EOF after the last record of a finite in-memory input
+
+//@ spec pow8(k) = ite(k <= 0, 1, ite(k == 1, 8, ite(k == 2, 64, ite(k == 3, 512, ite(k == 4, 4096, ite(k == 5, 32768, ite(k == 6, 262144, ite(k == 7, 2097152, ite(k == 8, 16777216, ite(k == 9, 134217728, ite(k == 10, 1073741824, ite(k == 11, 8589934592, 68719476736))))))))))))
+
+//@ func magic.tarParseOctal
+//@   requires len(b) <= 12
+//@   ensures -1 <= result
+//@   loop 1 invariant 0 <= ret && ret < pow8(rangeindex + 1) && rangeindex < 12
+
+//@ func magic.tarChksum
+//@   requires len(b) <= 4096
+//@   loop 1 invariant 0 <= unsigned && unsigned <= 255 * (rangeindex + 1) && -128 * (rangeindex + 1) <= signed && signed <= 127 * (rangeindex + 1)
